@@ -174,8 +174,8 @@ GUARDS = [
     (JDMARKER, "jdmarker.c", "if (length != (cinfo->num_components * 3)) ERREXIT(cinfo, JERR_BAD_LENGTH);", "get_sof length check"),
     (JDMARKER, "jdmarker.c", "if (!cinfo->marker->saw_SOF) ERREXIT(cinfo, JERR_SOS_NO_SOF);", "get_sos no sof"),
     (JDMARKER, "jdmarker.c", "if (length != (n * 2 + 6) || n < 1 || n > MAX_COMPS_IN_SCAN) ERREXIT(cinfo, JERR_BAD_LENGTH);", "get_sos Ns"),
-    (JDMARKER, "jdmarker.c", "ci < cinfo->num_components && ci < MAX_COMPS_IN_SCAN;", "get_sos component search bound"),
-    (JDMARKER, "jdmarker.c", "if (cc == compptr->component_id && !cinfo->cur_comp_info[ci]) goto id_found;", "get_sos id lookup"),
+    (JDMARKER, "jdmarker.c", "for (ci = 0, compptr = cinfo->comp_info; ci < cinfo->num_components; ci++, compptr++) { if (cc == compptr->component_id) { for (pi = 0; pi < i; pi++) { if (cinfo->cur_comp_info[pi] == compptr) break; } if (pi == i) goto id_found; } } ERREXIT1(cinfo, JERR_BAD_COMPONENT_ID, cc);", "get_sos id lookup"),
+    (JDMARKER, "jdmarker.c", "id_found: cinfo->cur_comp_info[i] = compptr; compptr->dc_tbl_no = (c >> 4) & 15; compptr->ac_tbl_no = (c ) & 15;", "get_sos table selectors"),
     (JDMARKER, "jdmarker.c", "for (pi = 0; pi < i; pi++) { if (cinfo->cur_comp_info[pi] == compptr) { ERREXIT1(cinfo, JERR_BAD_COMPONENT_ID, cc); } }", "get_sos duplicate id"),
     (JDMARKER, "jdmarker.c", "if (index < 0 || index >= (2 * NUM_ARITH_TBLS)) ERREXIT1(cinfo, JERR_DAC_INDEX, index);", "get_dac index"),
     (JDMARKER, "jdmarker.c", "if (cinfo->arith_dc_L[index] > cinfo->arith_dc_U[index]) ERREXIT1(cinfo, JERR_DAC_VALUE, val);", "get_dac value"),
